@@ -369,12 +369,29 @@ def env_tag(legacy):
     return "legacy: " if legacy else ""
 
 
+# "for all lists and sets" is also "whatever the program did before": a collection a function handed out
+# belongs to the caller, who may change it in place; the same call afterwards is still the textbook function
+# (a result kept by the function and handed out again would now carry the caller's changes)
+AGAIN = ("do def r_ = {src}; if is_list(r_) then do append(r_, 'zz'); r_[0] = 'yy' end "
+         "elif is_set(r_) then append(r_, 'zz') elif is_map(r_) then r_['zz'] = 1; NULL end")
+AGAIN_ALWAYS = 40          # per function name; afterwards every AGAIN_EVERY-th call
+AGAIN_EVERY = 6
+
+
 class Checker:
     def __init__(self, run, envs=ENVS):
         self.run = run
         self.impls = [Impl(legacy) for legacy in envs]
         self.impl = self.impls[0]
         self.nchecks = 0
+        self.seen_fn = {}
+        self.nagain = 0
+
+    def _again(self, src):
+        name = src.split("(", 1)[0]
+        k = self.seen_fn.get(name, 0)
+        self.seen_fn[name] = k + 1
+        return k < AGAIN_ALWAYS or k % AGAIN_EVERY == 0
 
     def expect(self, src, want, cat):
         """the call `src` must give `want` in every environment (a violation in the legacy
@@ -387,6 +404,18 @@ class Checker:
                 tag = env_tag(impl.legacy)
                 self.run.violation(tag + src, f"{cat}: {tag}expected {json.dumps(want)[:200]} got {show(o)} {note}",
                                    {"kind": "expect", "src": src, "want": want, "cat": cat, "legacy": impl.legacy})
+            elif o[0] == "val" and isinstance(o[1], tuple) and o[1][:1] in (("list",), ("set",), ("map",)) and self._again(src):
+                self.nagain += 1
+                self.nchecks += 1
+                impl.call(AGAIN.format(src=src))
+                o2 = impl.call(src)
+                ok2, note2 = fits(o2, want)
+                if not ok2:
+                    tag = env_tag(impl.legacy)
+                    self.run.violation(tag + "again:" + src,
+                                       f"{cat}: {tag}after the caller changed the result of {src} in place, the same call gives "
+                                       f"{show(o2)} {note2}, expected {json.dumps(want)[:200]}",
+                                       {"kind": "expect-again", "src": src, "want": want, "cat": cat, "legacy": impl.legacy})
 
     def drift_unless(self, src, want, kind):
         self.nchecks += 1
@@ -1270,7 +1299,7 @@ def run(run):
 def replay(run, case):
     kind = case["kind"]
     envs = (bool(case.get("legacy", False)),)
-    if kind == "expect":
+    if kind in ("expect", "expect-again"):
         Checker(run, envs).expect(case["src"], case["want"], case["cat"])
     elif kind == "word":
         o = Impl().call(case["src"])
